@@ -5,7 +5,9 @@
                  4: countByWindow and (registered after it) updateStateByKey on one source, k consumers each
                  5 / 6: window / countByWindow over a DERIVED stream (variant pv, see Model.derived_parent) with k
                         consumers, plus one consumer (k) on the parent; an optional 8th component carries pv
-            a batch is VList data (a plain list) or VTup [VInt form; VInt n; VList data] (an RDD, see as_batches)
+            7: sibling windowed views of the source (10th component: VList of VTup [VBool count; VInt w; VInt s]), one
+               consumer per view
+            a queue entry: see as_entry; a 9th component carries the default= batch of queueStream (VNone: none)
             ucode 0 sum, 1 last, 2 count, 3 append, 4 history, 5 idle, 6 decay, 7 reset, 8 min-or-None, 9 first, 10 concat; batches: the queue contents; times: the clock value of every tick
    result = VTup [VList node_kinds; VList ticks]
             node_kinds: the classes of ssc._dstreams in registration order (0 DStream, 1 Transformed, 2 Windowed, 3 Stateful, 4 TransformedWith)
@@ -24,22 +26,36 @@ Definition ufun_of_code (c : Z) : option (list val -> val -> val) :=
   | _ => None
   end.
 
-Fixpoint as_batches (l : list val) : option (list (list val)) :=
+(* a queue entry: VNone (an explicit idle interval), VList data (a plain list), or VTup [VInt form; VInt n; VList data]:
+   an RDD -- form 0 sc.parallelize(data, n), 1 sc.parallelize(data, n).map(INC), 2 sc.parallelize(data, n).filter(EVEN)
+   (the number of partitions n is not observable, see Model/Window.v), 9 the very same RDD object as the previous entry *)
+Definition as_entry (prev : option (list val)) (v : val) : option (option (list val)) :=
+  match v with
+  | VNone => Some None
+  | VList b => Some (Some b)
+  | VTup [VInt form; VInt _; VList b] =>
+      match form with
+      | 0 => Some (Some b)
+      | 1 => Some (Some (map v_inc b))
+      | 2 => Some (Some (filter v_even b))
+      | 9 => Some prev
+      | _ => None
+      end
+  | _ => None
+  end.
+Fixpoint as_entries (prev : option (list val)) (l : list val) : option (list (option (list val))) :=
   match l with
   | [] => Some []
-  | VList b :: l' => match as_batches l' with Some r => Some (b :: r) | None => None end
-  (* a queue entry that is an RDD: form 0 sc.parallelize(data, n), 1 sc.parallelize(data, n).map(INC),
-     2 sc.parallelize(data, n).filter(EVEN); the number of partitions n is not observable (see Model/Window.v) *)
-  | VTup [VInt form; VInt _; VList b] :: l' =>
-      match as_batches l' with
-      | Some r => match form with
-                  | 0 => Some (b :: r)
-                  | 1 => Some (map v_inc b :: r)
-                  | 2 => Some (filter v_even b :: r)
-                  | _ => None
-                  end
-      | None => None
-      end
+  | v :: l' => match as_entry prev v with
+               | Some e => match as_entries e l' with Some r => Some (e :: r) | None => None end
+               | None => None
+               end
+  end.
+
+Fixpoint as_views (l : list val) : option (list (bool * Z * Z)) :=
+  match l with
+  | [] => Some []
+  | VTup [VBool c; VInt w; VInt s] :: l' => match as_views l' with Some r => Some ((c, w, s) :: r) | None => None end
   | _ => None
   end.
 
@@ -75,8 +91,10 @@ Definition enc_tick (kind k : Z) (log : list logentry) (te : Z * option string) 
                    (filter (fun en => let '(t', _, _) := en in t' =? t) log));
         match e with None => VNone | Some s => VStr (str_of_string s) end].
 
-Definition graph_of (kind w s pv : Z) (u : list val -> val -> val) (k : nat) (q : list (list val)) : option (list node) :=
+Definition graph_of (kind w s pv : Z) (u : list val -> val -> val) (k : nat) (q : source) (views : list (bool * Z * Z))
+  : option (list node) :=
   match kind with
+  | 7 => Some (prog_views q views)
   | 5 => match derived_parent pv u q with Some pre => Some (prog_window_over false pre w s k) | None => None end
   | 6 => match derived_parent pv u q with Some pre => Some (prog_window_over true pre w s k) | None => None end
   | 0 => Some (prog_window q w s k)
@@ -97,20 +115,23 @@ Fixpoint run_enc (kind k : Z) (g : list node) (ts : list Z) (st : gstate) : list
       enc_tick kind k (glog st1) (t, e) :: run_enc kind k g ts' st1
   end.
 
-Definition run_with (kind w s uc k : Z) (bs ts : list val) (pv : Z) : val :=
-  match ufun_of_code uc, as_batches bs, all_Z ts with
-  | Some u, Some q, Some times =>
+Definition run_with (kind w s uc k : Z) (bs ts : list val) (pv : Z) (dflt : val) (vws : list val) : val :=
+  match ufun_of_code uc, as_entries None bs, all_Z ts, as_entry None dflt, as_views vws with
+  | Some u, Some q, Some times, Some d, Some views =>
       if k <? 0 then VBad else
-      match graph_of kind w s pv u (Z.to_nat k) q with
+      match graph_of kind w s pv u (Z.to_nat k) (mkSource q d) views with
       | Some g => VTup [VList (map kind_code g); VList (run_enc kind k g times (init_state g))]
       | None => VBad
       end
-  | _, _, _ => VBad
+  | _, _, _, _, _ => VBad
   end.
 
 Definition run (c : val) : val :=
   match c with
-  | VTup [VInt kind; VInt w; VInt s; VInt uc; VInt k; VList bs; VList ts] => run_with kind w s uc k bs ts 0
-  | VTup [VInt kind; VInt w; VInt s; VInt uc; VInt k; VList bs; VList ts; VInt pv] => run_with kind w s uc k bs ts pv
+  | VTup [VInt kind; VInt w; VInt s; VInt uc; VInt k; VList bs; VList ts] => run_with kind w s uc k bs ts 0 VNone []
+  | VTup [VInt kind; VInt w; VInt s; VInt uc; VInt k; VList bs; VList ts; VInt pv] =>
+      run_with kind w s uc k bs ts pv VNone []
+  | VTup [VInt kind; VInt w; VInt s; VInt uc; VInt k; VList bs; VList ts; VInt pv; dflt; VList vws] =>
+      run_with kind w s uc k bs ts pv dflt vws
   | _ => VBad
   end.
